@@ -14,7 +14,7 @@ impl ResultsFormatter for HtmlFormatter {
     }
 
     fn format_element(&mut self, _: &str, record: &str, _is_last: bool) -> Option<String> {
-        Some(format!("<td>{}</td>", record))
+        Some(format!("<td>{}</td>", escape_html(record)))
     }
 
     fn row_ended(&mut self) -> Option<String> {
@@ -24,6 +24,24 @@ impl ResultsFormatter for HtmlFormatter {
     fn footer(&mut self) -> Option<String> {
         Some("</table></body></html>".to_owned())
     }
+}
+
+/// Escapes the characters that are special in HTML text and attribute values
+fn escape_html(text: &str) -> String {
+    let mut escaped = String::with_capacity(text.len());
+
+    for c in text.chars() {
+        match c {
+            '&' => escaped.push_str("&amp;"),
+            '<' => escaped.push_str("&lt;"),
+            '>' => escaped.push_str("&gt;"),
+            '"' => escaped.push_str("&quot;"),
+            '\'' => escaped.push_str("&#39;"),
+            _ => escaped.push(c),
+        }
+    }
+
+    escaped
 }
 
 #[cfg(test)]
